@@ -10,8 +10,8 @@ use spl_frontend::{
         Expression, GlobalDeclaration, Identifier, ParameterDeclaration, Program, Reference,
         Statement, TypeExpression, Variable, VariableDeclaration,
     },
-    table::{Entry, GlobalEntry, GlobalTable, LookupTable},
-    Shiftable, ToRange, ToTextRange,
+    table::{Entry, GlobalEntry},
+    AnalyzedSource, Shiftable, ToRange, ToTextRange,
 };
 use std::collections::HashMap;
 use tokio::sync::mpsc::Sender;
@@ -31,7 +31,7 @@ pub async fn rename(
                 if &ident.value == "int" {
                     return Ok(None);
                 }
-                let idents = find_referenced_identifiers(ident, &entry, &doc.ast, &doc.table);
+                let idents = find_referenced_identifiers(ident, &entry, &doc);
                 // it seems like the original identifier is changed automatically,
                 // so it does not need to be added to `idents`
                 let text_edits = idents
@@ -82,7 +82,7 @@ pub async fn find(
         if let Some(ident) = &cursor.ident() {
             let DocumentCursor { doc, context, .. } = cursor;
             if let Some(entry) = context {
-                let identifiers = find_referenced_identifiers(ident, &entry, &doc.ast, &doc.table);
+                let identifiers = find_referenced_identifiers(ident, &entry, &doc);
                 let references = identifiers
                     .into_iter()
                     .map(|identifier| {
@@ -104,29 +104,20 @@ pub async fn find(
 fn find_referenced_identifiers(
     ident: &Ident,
     entry: &GlobalEntry,
-    program: &Program,
-    global_table: &GlobalTable,
+    doc: &AnalyzedSource,
 ) -> Vec<Identifier> {
+    let program = &doc.ast;
     match entry {
-        GlobalEntry::Procedure(p) => {
-            if p.name.value == ident.value {
-                find_procs(&ident.value, program)
-            } else {
-                let lookup_table = LookupTable {
-                    global_table: Some(global_table),
-                    local_table: Some(&p.local_table),
-                };
-                lookup_table
-                    .lookup(&ident.value)
-                    .map_or_else(Vec::new, |entry| match &entry {
-                        Entry::Type(_) => find_types(&ident.value, program),
-                        Entry::Procedure(_) => find_procs(&ident.value, program),
-                        Entry::Variable(_) | Entry::Parameter(_) => {
-                            find_vars(&ident.value, &p.name.value, program)
-                        }
-                    })
-            }
-        }
+        GlobalEntry::Procedure(p) => super::lookup_ident(doc, p, ident).map_or_else(
+            Vec::new,
+            |entry| match &entry {
+                Entry::Type(_) => find_types(&ident.value, program),
+                Entry::Procedure(_) => find_procs(&ident.value, program),
+                Entry::Variable(_) | Entry::Parameter(_) => {
+                    find_vars(&ident.value, &p.name.value, program)
+                }
+            },
+        ),
         GlobalEntry::Type(_) => find_types(&ident.value, program),
     }
 }
